@@ -279,3 +279,182 @@ Lemma holds_model : forall cfg ops, (cap cfg <= 3)%nat -> holds cfg (trace cfg i
 Proof.
   intros cfg ops Hcap. unfold holds. rewrite (mon_run_model cfg ops _ _ 0 (Inv_init cfg) Hcap). reflexivity.
 Qed.
+
+(* ---- individual sentences of the property ------------------------------------------ *)
+Definition reach (cfg : config) (ops : list op) : state := run cfg init_state ops.
+
+Lemma Inv_reach : forall cfg ops, Inv cfg (reach cfg ops) (mon_after cfg mon_init ops).
+Proof. intros. apply Inv_run, Inv_init. Qed.
+
+(* externalAddrs is the multiset of the observations credited in
+   connObservedTWAddrs, with no zero counts and no empty entries *)
+Lemma ext_is_multiset_l : forall cfg ops,
+  let st := reach cfg ops in
+  wf_ext (ext st) /\
+  forall l x g, cnt (ext st) l x g = Z.of_nat (length (filter (credits cfg l x g) (cobs st))).
+Proof.
+  intros cfg ops. cbn zeta. pose proof (Inv_reach cfg ops) as HI.
+  split; [apply (inv_wf _ _ _ HI)|apply (inv_cnt _ _ _ HI)].
+Qed.
+
+Lemma one_credit_per_conn_l : forall cfg ops,
+  let st := reach cfg ops in
+  NoDup (keys (cobs st)) /\
+  (forall c x, In (c, x) (cobs st) -> valid_conn cfg c /\ get Z.eqb c (cobs st) = Some x).
+Proof.
+  intros cfg ops. cbn zeta. pose proof (Inv_reach cfg ops) as HI. split.
+  - apply (inv_nodup _ _ _ HI).
+  - intros c x H. split; [apply (inv_valid _ _ _ HI c x H)|].
+    apply (In_get Z.eqb zeqb_spec); [apply (inv_nodup _ _ _ HI)|exact H].
+Qed.
+
+(* a report that the property says never counts leaves the whole state unchanged *)
+Lemma counts_none_unchanged : forall cfg st c oa,
+  counts cfg (closed st) c oa = None -> step cfg st (Observe c oa) = st.
+Proof.
+  intros cfg st c oa H. cbn [step]. pose proof (record_counts cfg st c oa) as R.
+  rewrite H in R. exact R.
+Qed.
+
+Lemma filtered_never_counts_l : forall cfg st c oa,
+  o_lb oa = true \/ o_n64 oa = true \/ o_relay oa = true \/
+  zmem c (closed st) = true \/
+  (forall ci, conn_info cfg c = Some ci ->
+     match c_local ci with
+     | None => True                                  (* local address without a thin waist *)
+     | Some l => is_listen_tw cfg (tw_id l) = false  (* not arriving at a listen address *)
+                 \/ match o_tw oa with
+                    | None => True                   (* observed address without a thin waist *)
+                    | Some x => consistent l x = false   (* inconsistent transport *)
+                    end
+     end) ->
+  step cfg st (Observe c oa) = st.
+Proof.
+  intros cfg st c oa H. apply counts_none_unchanged. unfold counts.
+  destruct (conn_info cfg c) as [ci|] eqn:Eci; [|reflexivity].
+  destruct (zmem c (closed st)) eqn:Ecl; [reflexivity|].
+  destruct H as [H|[H|[H|[H|H]]]].
+  - rewrite H. reflexivity.
+  - rewrite H, orb_true_r. reflexivity.
+  - rewrite H, !orb_true_r. reflexivity.
+  - discriminate.
+  - destruct (o_lb oa || o_n64 oa || o_relay oa); [reflexivity|].
+    specialize (H ci eq_refl). destruct (c_local ci) as [l|]; [|reflexivity].
+    destruct (o_tw oa) as [x|]; [|reflexivity].
+    destruct (group_of (c_remote ci)); [|reflexivity].
+    destruct H as [H|H]; rewrite H; rewrite ?andb_false_r; reflexivity.
+Qed.
+
+(* a counting report becomes the connection's one credited observation *)
+Lemma observe_credits_l : forall cfg st c oa l x,
+  counts cfg (closed st) c oa = Some (l, x) ->
+  get Z.eqb c (cobs (step cfg st (Observe c oa))) = Some x.
+Proof.
+  intros cfg st c oa l x H. cbn [step]. pose proof (record_counts cfg st c oa) as R.
+  rewrite H in R. destruct R as [ci [tl [g [_ [_ [_ [_ R]]]]]]]. rewrite R.
+  destruct (get Z.eqb c (cobs st)) as [prev|] eqn:Eg.
+  - destruct (prev =? x) eqn:E.
+    + apply Z.eqb_eq in E. subst. exact Eg.
+    + cbn [cobs]. apply (get_set_same Z.eqb zeqb_spec).
+  - cbn [cobs]. apply (get_set_same Z.eqb zeqb_spec).
+Qed.
+
+(* disconnecting withdraws the connection's credit, and only that *)
+Lemma disconnect_cobs : forall cfg st c,
+  cobs (step cfg st (Disconnect c)) = del Z.eqb c (cobs st).
+Proof.
+  intros cfg st c. cbn [step]. unfold remove_conn. cbn [mark_closed cobs].
+  destruct (get Z.eqb c (cobs st)) eqn:Eg.
+  - destruct (conn_info cfg c) as [ci|]; [|reflexivity].
+    destruct (c_local ci); [|reflexivity]. destruct (observer_of (c_remote ci)); reflexivity.
+  - cbn [cobs]. symmetry. apply (del_notin Z.eqb zeqb_spec), (get_None_notin Z.eqb zeqb_spec), Eg.
+Qed.
+
+Lemma remove_withdraws_l : forall cfg ops c,
+  let st := reach cfg ops in
+  let st' := step cfg st (Disconnect c) in
+  get Z.eqb c (cobs st') = None /\
+  zmem c (closed st') = true /\
+  forall l x g, cnt (ext st') l x g =
+                Z.of_nat (length (filter (credits cfg l x g) (del Z.eqb c (cobs st)))).
+Proof.
+  intros cfg ops c. cbn zeta. pose proof (Inv_reach cfg ops) as HI.
+  pose proof (Inv_step cfg _ _ (Disconnect c) HI) as HI'.
+  repeat split.
+  - rewrite disconnect_cobs. apply get_del_same.
+  - cbn [step]. unfold remove_conn. cbn [mark_closed ext cobs closed].
+    assert (Hz : zmem c (if zmem c (closed (reach cfg ops)) then closed (reach cfg ops)
+                         else c :: closed (reach cfg ops)) = true).
+    { destruct (zmem c (closed (reach cfg ops))) eqn:E; [exact E|].
+      unfold zmem. cbn [existsb]. rewrite Z.eqb_refl. reflexivity. }
+    destruct (get Z.eqb c (cobs (reach cfg ops))); [|exact Hz].
+    destruct (conn_info cfg c) as [ci|]; [|exact Hz].
+    destruct (c_local ci); [|exact Hz]. destruct (observer_of (c_remote ci)); exact Hz.
+  - intros l x g. rewrite (inv_cnt _ _ _ HI'). rewrite disconnect_cobs. reflexivity.
+Qed.
+
+(* the answers: threshold, cap, order, and completeness up to the cap *)
+Lemma addrs_threshold_l : forall cfg ops l r,
+  let st := reach cfg ops in
+  let n := nobs cfg (cred_of cfg (cobs st)) l in
+  let xs := addrs_for cfg st (Some l, r) in
+  (forall x, In x xs -> thresh cfg <= Z.of_nat (n x)) /\
+  (forall y, thresh cfg <= Z.of_nat (n y) -> 1 <= thresh cfg -> In y xs \/
+     (length xs = cap cfg /\ forall x, In x xs -> (n y <= n x)%nat)).
+Proof.
+  intros cfg ops l r. cbn zeta. pose proof (Inv_reach cfg ops) as HI.
+  destruct (addrs_for_props cfg _ _ l r HI) as [P1 [_ [_ [_ P5]]]].
+  rewrite (inv_cred _ _ _ HI) in *. split; [exact P1|].
+  intros y Hy Hpos.
+  destruct (in_dec Z.eq_dec y (addrs_for cfg (reach cfg ops) (Some l, r))) as [Hin|Hnot]; [left; exact Hin|].
+  right. destruct (P5 y Hnot Hy) as [Q1 [Q2|Q2]]; [lia|]. split; assumption.
+Qed.
+
+Lemma at_most_three_sorted_l : forall cfg ops la, cap cfg = the_cap ->
+  let st := reach cfg ops in
+  let xs := addrs_for cfg st la in
+  (length xs <= 3)%nat /\ NoDup xs /\
+  match fst la with
+  | Some l => sorted_desc (map (nobs cfg (cred_of cfg (cobs st)) l) xs) = true
+  | None => xs = []
+  end.
+Proof.
+  intros cfg ops [[l|] r] Hcap; cbn zeta; cbn [fst].
+  - pose proof (Inv_reach cfg ops) as HI.
+    destruct (addrs_for_props cfg _ _ l r HI) as [_ [P2 [P3 [P4 _]]]].
+    rewrite (inv_cred _ _ _ HI) in *. rewrite Hcap, the_cap_three in P2. repeat split; assumption.
+  - repeat split; [cbn; lia|constructor].
+Qed.
+
+Lemma addrs_all_sound_l : forall cfg ops x r,
+  let st := reach cfg ops in
+  In (x, r) (addrs_all cfg st) ->
+  exists l, In (Some l, r) (listen cfg) /\
+            thresh cfg <= Z.of_nat (nobs cfg (cred_of cfg (cobs st)) l x).
+Proof.
+  intros cfg ops x r. cbn zeta. pose proof (Inv_reach cfg ops) as HI. intros H.
+  unfold addrs_all in H. apply in_flat_map in H. destruct H as [la [Hla H]].
+  apply in_map_iff in H. destruct H as [x0 [E Hx]]. inversion E. subst x0 r. clear E.
+  apply dedup_laddr_incl in Hla. destruct la as [[l|] r]; cbn [fst snd] in *; [|destruct Hx].
+  exists l. split; [exact Hla|]. rewrite <- (inv_cred _ _ _ HI).
+  apply (proj1 (addrs_for_props cfg _ _ l r HI)), Hx.
+Qed.
+
+(* the host-level truncation in addrs_manager.appendObservedAddrs drops nothing *)
+Lemma host_truncation_l : forall cfg ops la, cap cfg = the_cap ->
+  host_observed_for (Z.to_nat maxObservedAddrsPerListenAddr) cfg (reach cfg ops) la =
+  addrs_for cfg (reach cfg ops) la.
+Proof.
+  intros cfg ops la Hcap. unfold host_observed_for. apply firstn_all2.
+  pose proof (addrs_for_length cfg _ _ la (Inv_reach cfg ops)) as H.
+  rewrite Hcap, the_cap_three in H. change (Z.to_nat maxObservedAddrsPerListenAddr) with 3%nat. exact H.
+Qed.
+
+(* len(ObservedBy) counts observer groups once, whatever the multiplicity *)
+Lemma observed_by_is_distinct_groups_l : forall cfg ops l x,
+  let st := reach cfg ops in
+  length (oset (ext st) l x) = nobs cfg (cred_of cfg (cobs st)) l x.
+Proof.
+  intros cfg ops l x. cbn zeta. pose proof (Inv_reach cfg ops) as HI.
+  rewrite <- (inv_cred _ _ _ HI). apply oset_length_nobs, HI.
+Qed.
